@@ -8,7 +8,7 @@ from .. import world as W
 from . import _ws
 
 ID = 'C12'
-TIERS = {'quick': {'seeds': 6000, 'seconds': 75, 'determinism': 32},
+TIERS = {'quick': {'seeds': 6000, 'seconds': 45, 'determinism': 32},
          'thorough': {'seconds': 900, 'determinism': 256, 'minimise_s': 120}}
 RULE = ('seeded worlds with every outcome kind (several events per test, failing subtests, '
         'unexpected successes, skips, layer setUp/tearDown failures, import failures), -v 0..3, '
